@@ -230,6 +230,23 @@ def check_driver(prog, rep, kern, line, cs):
     t_all = {T(s) for s in ast.walk(kern.node) if isinstance(s, ast.Assign)}
     ok = 'scan_line[i]=img[line][i]' in t_all or 'scan_line[i]=img[line,i]' in t_all
     rep.add('X3', kern, entry, 'scan line = img[line]', kern.node.lineno, ok, 'each sweep must read the current row of the raster')
+    # X6b: the line buffer keeps the raster's own dtype (the target test compares raster values exactly)
+    src = a[0]
+    allocs = [n for n in kern.own_nodes() if isinstance(n, ast.Assign) and T(n.targets[0]) == src and isinstance(n.value, ast.Call)]
+    img = kern.params[0]
+    okb = False
+    txt = None
+    if len(allocs) == 1:
+        c = allocs[0].value
+        txt = T(allocs[0])
+        dt = kw(c, 'dtype')
+        if short(c) in ('zeros', 'empty', 'ones') and dt is not None:
+            okb = T(dt) == '%s.dtype' % img
+        elif short(c) in ('zeros_like', 'empty_like', 'copy') and dt is None:
+            okb = img in T(c)
+    rep.add('X6', kern, entry, 'line buffer: %s' % txt, allocs[0].lineno if allocs else kern.node.lineno, okb,
+            'the buffer that holds the current raster row must have the raster\'s own dtype: narrowing it (e.g. float32) '
+            'changes values before the target test (ids above 2**24, tiny/huge floats) so real targets are missed')
     ok = '%s[i]=img_distance[line][i]' % prox in t_all and 'img_distance[line][i]=%s[i]' % prox in t_all and '%s[i]=-1.0' % prox in t_all
     rep.add('X3', kern, entry, 'distances initialised to -1, saved per line, reloaded in the second pass', kern.node.lineno, ok,
             'the second pass must start from the first pass\' distances')
@@ -319,6 +336,11 @@ def check(prog, rep):
         isinstance(n, ast.If) and T(n.test) == 'max_distanceisNone' and T(n.body[0]) == 'max_distance=np.inf' for n in impl.own_nodes())
     rep.add('X6', impl, 'proximity', 'target_values as array; max_distance None -> inf', impl.node.lineno, ok,
             'an absent max_distance means unbounded')
+    # the statement is backend-neutral: on Dask rasters each chunk must see a halo of max_distance (rules of C07)
+    from . import C07
+    C07.check(prog, rep)
+    rep.floors = {k: v for k, v in rep.floors.items() if not k.startswith('P7') and k not in ('H2', 'H0')}
+    rep.floor('P7a', 2)
     rep.floor('X1', 1)
     rep.floor('X2', 5)
     rep.floor('X3', 6)
